@@ -313,6 +313,7 @@ func (r *runner) run(ctx context.Context, isStream bool, input any, opts ...Opti
 				subGraphInterrupts,
 				interruptAfterNodes,
 				append(completedTasks, cpt...),
+				nil,
 				checkPointID,
 				isSubGraph,
 				cm,
@@ -352,7 +353,10 @@ func (r *runner) run(ctx context.Context, isStream bool, input any, opts ...Opti
 					interruptRerunNodes,
 					subGraphInterrupts,
 					interruptAfterNodes,
-					append(completedTasks, newCompletedTasks...),
+					// completedTasks have already been resolved by calculateNextTasks above: only the late finishers
+					// are resolved here, and the tasks computed from completedTasks are saved as pending inputs
+					newCompletedTasks,
+					nextTasks,
 					checkPointID,
 					isSubGraph,
 					cm,
@@ -465,6 +469,7 @@ func (r *runner) handleInterruptWithSubGraphAndRerunNodes(
 	subGraphInterrupts map[string]*subGraphInterruptError,
 	interruptAfterNodes []string,
 	completeTasks []*task,
+	pendingTasks []*task,
 	checkPointID *string,
 	isSubGraph bool,
 	cm *channelManager,
@@ -537,6 +542,10 @@ func (r *runner) handleInterruptWithSubGraphAndRerunNodes(
 		} else {
 			cp.Inputs[t.nodeKey] = t.call.action.inputZeroValue()
 		}
+	}
+	// tasks that were already computed (their inputs taken out of the channels) but not started yet
+	for _, t := range pendingTasks {
+		cp.Inputs[t.nodeKey] = t.input
 	}
 	err = r.checkPointer.convertCheckPoint(cp, isStream)
 	if err != nil {
